@@ -247,6 +247,71 @@ def ev_interval(case):
 EVALUATORS = {"readouts": ev_readouts, "interval": ev_interval}
 
 
+def ev_aliasing(case):
+    """Read-out histories: read-outs interleaved with steps and with replacing the last point (the public hook used by
+    parallel tempering) must stay synchronised with the chain (no stale cached read-out)."""
+    kind, d, n = case["sampler"], case["d"], case["n"]
+    fails, fkeys, tags = [], set(), set()
+    cnt = 0
+
+    def add_fail(key, what, **kw):
+        if key not in fkeys:
+            fkeys.add(key)
+            fails.append(fail(key, what, config=case, **kw))
+
+    for order in case["orders"]:
+        with lib("build-chain"):
+            ch = make_chain(kind, d, n - 1 if kind != "EnsembleSampler" else n, case["seed"])
+        FS = np.array(ch.get_sample(burn=0, thin=1), copy=True)
+        FP = np.array(ch.get_probabilities(burn=0, thin=1), copy=True)
+        for op in order:
+            cnt += 1
+            if op == "read":
+                # plain read-outs in between (whether the returned arrays are copies or views is not prescribed, so the
+                # harness does not write into them)
+                for burn, thin in ((0, 1), (1, 2)):
+                    with lib("readout"):
+                        ch.get_sample(burn=burn, thin=thin), ch.get_probabilities(burn=burn, thin=thin)
+                        [ch.get_parameter(i, burn=burn, thin=thin) for i in range(d)]
+                        ch.get_interval(interval=0.9, burn=burn, thin=thin)
+            elif op == "replace" and kind != "EnsembleSampler":
+                new = FS[-1] + 0.25
+                with lib("replace_last"):
+                    ch.replace_last(new.copy())
+                    ch.probs[-1] = post(new) * ch.inv_temp  # what the tempering process does next
+                FS[-1] = new
+                FP[-1] = post(new) * ch.inv_temp
+            elif op == "step":
+                with lib("step"):
+                    if kind == "EnsembleSampler":
+                        ch.advance(1)
+                    else:
+                        ch.take_step()
+                S2 = np.asarray(ch.get_sample(burn=0, thin=1))
+                P2 = np.asarray(ch.get_probabilities(burn=0, thin=1))
+                k0 = FS.shape[0]
+                if S2.shape[0] <= k0 or not np.array_equal(S2[:k0], FS) or not np.array_equal(P2[:k0], FP):
+                    add_fail(f"aliasing/{kind}/history-changed-after-{'+'.join(order[:order.index(op)]) or 'nothing'}-then-step", f"order {order}", order=order)
+                FS, FP = np.array(S2, copy=True), np.array(P2, copy=True)
+                continue
+            with lib("readout-after"):
+                S2 = np.asarray(ch.get_sample(burn=0, thin=1))
+                P2 = np.asarray(ch.get_probabilities(burn=0, thin=1))
+                cols = [np.asarray(ch.get_parameter(i, burn=0, thin=1)) for i in range(d)]
+            if S2.shape != FS.shape or not np.array_equal(S2, FS):
+                add_fail(f"aliasing/{kind}/sample-readout-wrong-after-{op}", f"order {order}", order=order)
+            if P2.shape != FP.shape or not np.array_equal(P2, FP):
+                add_fail(f"aliasing/{kind}/probabilities-readout-wrong-after-{op}", f"order {order}", order=order)
+            for i, c in enumerate(cols):
+                if c.shape != (FS.shape[0],) or not np.array_equal(c, FS[:, i]):
+                    add_fail(f"aliasing/{kind}/parameter-readout-wrong-after-{op}", f"order {order} index {i}", order=order)
+        tags.add(f"aliasing:{kind}:d={d}")
+    return {"fails": fails, "n": cnt, "states": cnt, "transitions": cnt, "tags": tags}
+
+
+EVALUATORS["aliasing"] = ev_aliasing
+
+
 def run(ck):
     q = ck.quick
     rc = []
@@ -268,6 +333,10 @@ def run(ck):
                 ic.append(dict(sampler=kind, d=d, n=n, seed=5 + ck.seed, burns=[0, 1] if q else [0, 1, 3], thins=[1, 2] if q else [1, 2, 3],
                                fractions=[0.1, 0.5, 0.68, 0.9, 0.95]))
     ck.run_cases("interval", ic)
+    import itertools as _it
+
+    orders = [list(o) for L in (1, 2, 3) for o in _it.product(("read", "replace", "step"), repeat=L)]
+    ck.run_cases("aliasing", [dict(sampler=kind, d=d, n=n, seed=9 + ck.seed, orders=orders) for kind in SAMPLERS for d in (1, 2) for n in ((3, 6) if q else (2, 3, 6, 9))])
     ck.rule = ("every (burn, thin) in [0,N+1]x[1,N+1] for every chain length N (reached by real stepping, and via save/load) per sampler and dimension; "
                "get_interval for 5 fractions x samples in {None,1..N+2} x all outcomes of the scripted permutation. Distinct non-trivial = (sampler, retained 0/1/many, loaded) and interval modes")
     ck.assume("chains of length <= 12 (ensemble <= 4 iterations x (d+2) walkers); burn >= 0, thin >= 1")
